@@ -17,7 +17,7 @@ impl<Req, Res, E> Inner<Req, Res, E> {
             old(tr).unguarded == 0,   // #no_unguarded_duty_when_inner_call_may_panic @LEDGER_TAGS@
         ensures
             !final(self).ready@,
-            *final(tr) == (Trace { ev: old(tr).ev.push(Ev::InnerCall(req)), calls: old(tr).calls + 1, last_req: Some(req), ..*old(tr) }),
+            *final(tr) == (Trace { ev: old(tr).ev.push(Ev::InnerCall(req)), calls: old(tr).calls + 1, last_req: Some(req), reqs: old(tr).reqs.push(req), ..*old(tr) }),
     { unimplemented!() }
     /// a clone has not been driven to readiness (strict services such as Buffer reserve capacity in poll_ready)
     #[verifier::external_body]
@@ -30,7 +30,7 @@ impl<Req, Res, E> InnerFut<Req, Res, E> {
             await_gate(*old(tr)),   // #inner_future_gate @GATE_TAGS@
             old(tr).unguarded == 0,   // #no_unguarded_duty_at_await @LEDGER_TAGS@
         ensures
-            *final(tr) == (Trace { ev: old(tr).ev.push(Ev::InnerDone(r)), done: old(tr).done + 1, last_done: Some(r), ..*old(tr) }),
+            *final(tr) == (Trace { ev: old(tr).ev.push(Ev::InnerDone(r)), done: old(tr).done + 1, last_done: Some(r), slept_since_done: 0, granted_since_done: false, ..*old(tr) }),
     { unimplemented!() }
 }
 pub assume_specification<T> [std::mem::replace::<T>] (dest: &mut T, src: T) -> (r: T)
